@@ -2,7 +2,8 @@
    This file contains only statements closed by [exact]; proofs live in Proofs/. *)
 From Coq Require Import List NArith.
 From Orda.Model Require Import Base Time.
-From Orda.Proofs Require Import TimeFacts.
+From Orda.Model Require Import Ops Counter Map List Datatype CheckCrdt.
+From Orda.Proofs Require Import TimeFacts DatatypeFacts KernelInst.
 
 (* distinct element identifiers never share a key of the node tables *)
 Theorem C15_key_injective : forall a b : ts, ts_hash a = ts_hash b -> a = b.
@@ -30,3 +31,34 @@ Theorem C15_compare_unbounded_refuted :
   exists a b c, ts_compare a b = Lt /\ ts_compare b c = Lt /\ ts_compare a c <> Lt.
 Proof. exact ts_compare_unbounded_refuted. Qed.
 Print Assumptions C15_compare_unbounded_refuted.
+
+(* each client numbers its operations 1, 2, 3, ... without gaps (each sequence number is the
+   previous one plus 1, modulo 2^64, starting from 1, all with the client's id) over every
+   history of the list datatype mixing failed calls, aborted transactions and remote deliveries;
+   the same generic theorem (DatatypeFacts.seq_gapless) covers counter and map *)
+Theorem C15_seq_gapless_list : forall c es d, l_run (l_new c) es = Some d ->
+  seq_chain c 0 (d_buf d) /\ o_seq (d_oid d) = last_seq 0 (d_buf d).
+Proof.
+  intros c es d. apply seq_gapless; [apply id_import_export|apply l_local_id|apply l_local_not_tx].
+Qed.
+Print Assumptions C15_seq_gapless_list.
+
+Theorem C15_seq_gapless_map : forall c es d, m_run (m_new c) es = Some d ->
+  seq_chain c 0 (d_buf d) /\ o_seq (d_oid d) = last_seq 0 (d_buf d).
+Proof.
+  intros c es d. apply seq_gapless; [apply id_import_export|apply m_local_id|apply m_local_not_tx].
+Qed.
+Print Assumptions C15_seq_gapless_map.
+
+(* every new local operation is ordered after every operation its replica has already applied:
+   in the sequence g of applied operations (own ones when issued, foreign ones when delivered)
+   each own operation has a lamport greater than all operations before it.  [grun] = None when a
+   call panics, a delivered operation carries this client's id, or the clock is about to wrap 2^64 *)
+Theorem C15_clock_dominates_list : forall c es d g,
+  grun lstate lcall (list val) lstate l_validate l_local' l_exec_remote id_ id_ c
+       (l_new c, [OSnap (opid_next (opid_new c))]) es = Some (d, g) ->
+  dom c 0 g /\ (maxlam 0 g <= o_lam (d_oid d))%N.
+Proof.
+  intros c es d g. apply clock_dominates; [apply id_import_export|apply l_local_id|apply l_local_not_tx].
+Qed.
+Print Assumptions C15_clock_dominates_list.
